@@ -1,9 +1,13 @@
 package harness
 
+import "strings"
+
 func bfsRec(tier string) *BFSDef {
 	al := []string{
 		"mkdir w/r/sub/n", "mkdir w/r/sub/n/m", "mkdir w/r/dir1/k", "mkdir w/r/sub",
 		"mv w/r/sub w/r/moved", "mv w/r/moved w/r/sub", "mv w/r/dir1 w/r/dirA", "mv w/r/sub/d w/r/sub2/dd", "mv w/r/sub2 w/r/sub/in", "mv w/r/dir1 w/r/empty", "touch w/r/empty/t",
+		// directory names that begin with dots are ordinary names
+		"touch w/r/sub/..x/t", "touch w/r/moved/..x/t", "touch w/r/...y/t",
 		"touch w/r/t", "touch w/r/dir1/t", "touch w/r/dir10/t", "touch w/r/sub/t", "touch w/r/sub2/t", "touch w/r/sub/d/t", "touch w/r/sub2/d/t",
 		"touch w/r/moved/t", "touch w/r/moved/d/t", "touch w/r/dirA/t", "touch w/r/dir10/c10/t", "touch w/r/sub/n/t", "touch w/r/sub/n/m/t", "touch w/r2/x/t",
 		"rm w/r/sub2/f", "rm w/r/dir10/f", "rm w/r/moved/f", "write w/r/sub2/d/f", "write w/r/dir10/f", "write w/r2/x/f",
@@ -52,6 +56,13 @@ func recJobs(tier string) []Job {
 	var jobs []Job
 	for _, h := range hs {
 		jobs = append(jobs, Job{Family: "seq-batch", Params: map[string]any{"family": "rec", "base": map[string]any{"init": []string{"RA w/r", "RA w/r2"}}, "histories": [][]string{h}}})
+	}
+	// a directory renamed twice (and there and back) before the reader has handled the first rename: all records of
+	// the burst are on the unchanged parent, so the names at event time and at the checkpoint agree
+	for _, b := range []string{"mv w/r/sub w/r/tmp ;; mv w/r/tmp w/r/final", "mv w/r/sub w/r/tmp ;; mv w/r/tmp w/r/final ;; mv w/r/final w/r/last", "mv w/r/sub w/r/tmp ;; mv w/r/tmp w/r/sub"} {
+		last := b[strings.LastIndex(b, " ")+1:]
+		jobs = append(jobs, Job{Family: "seq-batch", Params: map[string]any{"family": "rec", "base": map[string]any{"init": []string{"RA w/r", "RA w/r2"}},
+			"histories": [][]string{{b, "touch " + last + "/t", "touch " + last + "/d/t", "mkdir " + last + "/new", "touch " + last + "/new/t", "touch w/r/sub2/t", "RR w/r", "touch " + last + "/d/u"}}}})
 	}
 	// "covered from the moment its own Create has been delivered": the new directory's Create shares a read
 	// buffer with later events and is the one the reader is parked on (no consumer yet); something is created
